@@ -128,7 +128,7 @@ def run(rep: C.Report) -> None:
                 "^seq_": dict(name="Ob2b two consecutive pages: the record stored for a page depends on that page only", functions=["dumpparser.py:parse_dump_xml loop incl. the statements preceding it in the with block (AST slice)"], bounds="2 page elements, each: selected or not, 9 content models, redirect or not, text/target <= 1 symbolic char"),
                 "^flt_": dict(name="Ob2 page filter and field pass-through of parse_dump_xml", functions=["dumpparser.py:parse_dump_xml loop body (AST slice)"], bounds=f"title skeletons with 1..{2 if quick else 3} symbolic chars over {{a,T,:,/,space,é}}; 4 namespaces, selected or not; 9 content models; text/redirect target <= 2 symbolic chars"),
                 "^addp_": dict(name="Ob1 add_page stores a canonical title unchanged and passes the fields through", functions=["core.py:Wtp.add_page", "core.py:Wtp._template_to_body"], bounds=f"prefix of the namespace + 1..{2 if quick else 3} symbolic chars; body <= 3 symbolic chars; model None or given; redirect or not"),
-                "^defaults_ok": dict(name="Ob3 add_default_templates adds exactly the absent helpers and never overwrites a page that is there (text, empty includable part, or a dangling redirect)", functions=["dumpparser.py:add_default_templates"], bounds="all 16 presence patterns of the four helper templates"),
+                "^defaults_ok": dict(name="Ob3 add_default_templates adds exactly the absent helpers and never overwrites a page that is there (text, empty includable part, or a dangling redirect)", functions=["dumpparser.py:add_default_templates"], bounds="all 4^4 presence kinds of the four helper templates (absent, text, empty includable part, dangling redirect)"),
             },
             timeout=180 if quick else 400,
             src=src,
